@@ -34,7 +34,24 @@ as broken):
                the then-branch.
 Arithmetic is exact: Z operations on integers, Q operations otherwise (floats are
 exact dyadic rationals); `/` is always Q division, `//` is Z.div (Python floor
-division on integers = Coq Z.div)."""
+division on integers = Coq Z.div).
+
+Additions of the loop ties of C05 / C15 (each marked `[loop ties C15]` / `[loop ties C05]` / `[loop ties C15/C05]` where it is
+implemented; all additive, everything else is refused as before):
+  types      : OB (optional boolean: None / True / False), LQ (a 1-d float array / list of numbers as a value),
+               'F:<arg>,..,<kw>=<arg>><ret>' (a PURE callable called with exactly this argument pattern), 'S|<T>' (a str OR a T,
+               read through `if isinstance(x, str):`), EXC (not a value: whether the call guarded by a `try` raises what its
+               handler catches)
+  statements : `try: <one assignment from a call> except E: H [else: L]` (spec key `tries`); `if c: A else: raise` (guard
+               recorded); an `if` left with log lines only is dropped when its test has no effect; `if x is None:` /
+               `if x is not None:` on an OB name narrows it on the not-None side (the continuation is translated per side);
+               `d = {"k": v, ...}` (a dict display local that is only read: `k in d`, `d[k]`, `return d`); `d[key] = v` with a string
+               key is a store to that one entry (a variable named by the target's source text); `a, b = (x1, y1) if c else
+               (x2, y2)`; `opaque=` ranges also in whole functions / fragments; spec key `row_filter=<table>`: `return table` /
+               `return table[mask]` read per row as "the row is kept"
+  expressions: `+x`; `np.nan` as a value (the missing number); == / != and truthiness of OB; calls of function-typed
+               parameters; list displays of numbers and `lst.append(e)` on LQ; spec key `columns=[M, ..]`: 2-d arrays read as
+               one column -- `np.apply_along_axis(F, 0, M)`, `np.array([E for a, i in zip(M.T, v)])`"""
 import ast, os, sys, glob, importlib.util
 from fractions import Fraction
 
@@ -281,9 +298,10 @@ class FnTranslator:
                 return ('(%s ++ %s)%%string' % (a[0], b[0]), 'S')
             if isinstance(n.op, ast.Add) and a[1] == b[1] == 'LS':
                 return ('(%s ++ %s)%%list' % (a[0], b[0]), 'LS')
-            if isinstance(n.op, ast.Add) and a[1] == b[1] == 'LQ' and isinstance(n.right, ast.List):
-                # [loop ties C05] lst + [e] on a list of numbers (what `lst.append(e)` desugars to): concatenation.  Only
-                # with a list DISPLAY on the right: `+` of two numpy arrays is elementwise addition, not this
+            if isinstance(n.op, ast.Add) and a[1] == b[1] == 'LQ' and isinstance(n.right, ast.List) and getattr(n, '_from_append', False):
+                # [loop ties C05] `lst.append(e)` on a list of numbers, desugared to lst + [e]: concatenation.  ONLY for the
+                # desugared append (an object with .append is a Python list): a source-level `x + [e]` on a numpy array would
+                # be elementwise addition and is not translated
                 return ('(%s ++ %s)%%list' % (a[0], b[0]), 'LQ')
             if isinstance(n.op, (ast.BitAnd, ast.BitOr)):
                 if a[1] == 'B' and b[1] == 'B':
@@ -969,8 +987,9 @@ class FnTranslator:
                 # x.extend(l) -> x = x + l ;  x.append(e) -> x = x + [e]   (lists are values in the translation)
                 x = s.value.func.value.id
                 arg = s.value.args[0] if s.value.func.attr == 'extend' else ast.List(elts=[s.value.args[0]], ctx=ast.Load())
-                out.append(ast.Assign(targets=[ast.Name(id=x, ctx=ast.Store())],
-                                      value=ast.BinOp(left=ast.Name(id=x, ctx=ast.Load()), op=ast.Add(), right=arg)))
+                cat = ast.BinOp(left=ast.Name(id=x, ctx=ast.Load()), op=ast.Add(), right=arg)
+                cat._from_append = s.value.func.attr == 'append'       # [loop ties C05] see the LQ concatenation in expr()
+                out.append(ast.Assign(targets=[ast.Name(id=x, ctx=ast.Store())], value=cat))
                 continue
             if isinstance(s, ast.Assert):
                 # `assert c` -- the failing path is outside the translated function (recorded like a raise guard)
